@@ -55,6 +55,40 @@ CLAIMS.update({
         ref="DESIGN.md §3 C12"),
 })
 
+CLAIMS.update({
+    "C10": dict(
+        technique="static analysis: MIR must-pass/dominance rules on the incremental worker, who-may-write table for the dependency map, THIR pairing rule remove_node/restart_work",
+        text="Necessary conditions of incremental==fresh, for all histories: configuration fingerprint compared before work and over the whole "
+             "serialized configuration, every notification restarts dependents, queued deletions run on every successful pass, graph nodes are "
+             "unlinked before removal (no stale index can be restarted), only reset() shrinks the dependency map, dependencies are recorded on "
+             "failure too. Equality of output trees over histories is NOT decided.",
+        note="Histories are not explored; the fingerprint is as fine as Configuration's Serialize output (C19). " + TB,
+        ref="DESIGN.md §3 C10"),
+    "C11": dict(
+        technique="static analysis: who-may-call tables, MIR dominance/must-pass on write/done/flush paths, census of batch-global mutable state with cache-key consistency, audit of unordered-container iterations",
+        text="For all batches: outputs are written only by the reviewed writer, after the whole rule loop and never on a rule's error edge; every "
+             "non-filtered success passes the write; BufWriters are flushed with the error propagated; a failing item is stored in its own status and "
+             "only fail-fast leaves the loop; batch-global mutable state is the reviewed .luaurc cache, written only under its lookup key and cleared "
+             "per pass; every iteration over a HashMap/HashSet is order-insensitive, totally sorted, or reviewed. Directory walking and path arithmetic are not decided.",
+        note="Top-level file filters: documented 'skipped entirely' is taken as intended (no output for filtered files). " + TB,
+        ref="DESIGN.md §3 C11"),
+    "C19": dict(
+        technique="static analysis: reader/writer key-set agreement per rule, serde attribute census, abstract decision table of the generic rule serializer, collision-guard and registry agreement rules on typed THIR",
+        text="For all configurations: every configure() rejects unknown keys, configuration structs deny unknown fields, duplicate keys are rejected, "
+             "every accepted property key is emitted by the rule's serializer (two known-finding exceptions pinned by snapshots), the generic rule "
+             "serializer emits filters exactly when non-empty and uses the bare-name form only for property-less, filter-less rules, keys writing the "
+             "same field are mutually excluded, and the name registries agree. Pattern validity and JSON5 parsing are not decided.",
+        note="Keys are recognised as string literals in match patterns/insert calls. " + TB,
+        ref="DESIGN.md §3 C19"),
+    "C20": dict(
+        technique="static analysis: decision tables of the two filter predicates extracted by abstract path enumeration (3x3 list states), MIR dominance of Rule::process by both predicates",
+        text="For all filter lists: both predicates return (apply empty or matched) and not (skip matched) in each of the 9 abstract list states and "
+             "agree with each other; no rule runs without the global and its own predicate having answered true on the item's source; the skip edge is inert; "
+             "all four lists deserialize through the one-or-many helpers. Glob semantics (wax) are not decided.",
+        note="FilterPattern::matches is opaque. " + TB,
+        ref="DESIGN.md §3 C20"),
+})
+
 NOT_APPLICABLE = {
     "C13": "literal round-trip equality is arithmetic on bytes and doubles (escape padding, shortest float repr, quote choice by content): "
            "no clause is visible in the shape of the code beyond what unit tests already pin; static analysis cannot bound these runtime values",
